@@ -164,3 +164,79 @@ func Scaling(n int) map[string][]byte {
 	m["gocode-lines"] = []byte("package x\n\n" + strings.Repeat("var _ = 1\n", n) + "\n@goht T() {\n\t%p x\n}\n")
 	return m
 }
+
+// LineMutants: several line-level edits at once (single edits are Mutants): the indentation of one to three
+// lines is removed, reduced, increased or gets a blank; a line is repeated; two lines change places.
+func LineMutants(r *rand.Rand, s []byte, n int) [][]byte {
+	var out [][]byte
+	for k := 0; k < n; k++ {
+		lines := strings.Split(string(s), "\n")
+		var cand []int
+		for i, l := range lines {
+			if strings.HasPrefix(l, "\t") {
+				cand = append(cand, i)
+			}
+		}
+		if len(cand) == 0 {
+			return out
+		}
+		for e := 1 + r.Intn(3); e > 0; e-- {
+			i := cand[r.Intn(len(cand))]
+			l := lines[i]
+			body := strings.TrimLeft(l, "\t")
+			depth := len(l) - len(body)
+			if depth == 0 {
+				continue // already moved to column 0 by an earlier edit
+			}
+			switch r.Intn(7) {
+			case 0, 1:
+				lines[i] = body // a line of the body at column 0
+			case 2:
+				lines[i] = l[1:]
+			case 3:
+				lines[i] = "\t" + l
+			case 4:
+				lines[i] = strings.Repeat("\t", r.Intn(depth+1)) + " " + strings.Repeat("\t", depth-1) + body
+			case 5:
+				lines = append(lines[:i+1], append([]string{l}, lines[i+1:]...)...)
+				for ci := range cand {
+					if cand[ci] > i {
+						cand[ci]++
+					}
+				}
+			case 6:
+				j := cand[r.Intn(len(cand))]
+				lines[i], lines[j] = lines[j], lines[i]
+			}
+		}
+		out = append(out, []byte(strings.Join(lines, "\n")))
+	}
+	return out
+}
+
+// IndentProfiles: every template of 1..maxLines one-element lines whose depths range over 0..3 (small-scope
+// exhaustive: every way a body can be indented, well or badly).
+func IndentProfiles(maxLines int) [][]byte {
+	var out [][]byte
+	tags := []string{"%p", "%a", "%b", "%c", "%d", "%e"}
+	var rec func(depths []int)
+	rec = func(depths []int) {
+		if len(depths) > 0 {
+			var sb strings.Builder
+			sb.WriteString("package main\n\n@goht T() {\n")
+			for i, d := range depths {
+				sb.WriteString(strings.Repeat("\t", d) + tags[i] + "\n")
+			}
+			sb.WriteString("}\n")
+			out = append(out, []byte(sb.String()))
+		}
+		if len(depths) == maxLines {
+			return
+		}
+		for d := 0; d <= 3; d++ {
+			rec(append(append([]int{}, depths...), d))
+		}
+	}
+	rec(nil)
+	return out
+}
